@@ -354,6 +354,10 @@ def run(prog, rep, tier):
     l3_df20(prog, rep)
     l4_scales(prog, rep, tier)
     l5_altitude_identity(prog, rep, tier)
+    # the decoded fields are observed through their JSON rendering too (address and squawk text, keys): C07's shape and
+    # key rules (lower-case 6-digit hex address fed from the right field, serialisable alternatives) are evaluated here as well
+    from props import c07
+    c07.run(prog, util.Prefixed(rep, 'L6-json/'), tier)
 
 
 def l5_altitude_identity(prog, rep, tier):
